@@ -603,6 +603,16 @@ func (cachefile *cacheFile) setData(streamID uint64, streamTime time.Time, conve
 	cachefile.rwmutex.Lock()
 	defer cachefile.rwmutex.Unlock()
 
+	// The format cannot represent empty chunks (a size of zero means "the other direction"),
+	// storing one would garble the times and content types of the chunks after it.
+	nonEmptyPackets := make([]index.Data, 0, len(convertedPackets))
+	for _, convertedPacket := range convertedPackets {
+		if len(convertedPacket.Content) != 0 {
+			nonEmptyPackets = append(nonEmptyPackets, convertedPacket)
+		}
+	}
+	convertedPackets = nonEmptyPackets
+
 	if cachefile.freeSize >= cleanupMinFreeSize && cachefile.freeSize >= int64(float64(cachefile.fileSize)*cleanupMinFreeFactor) {
 		if err := cachefile.truncateFile(); err != nil {
 			return fmt.Errorf("failed to truncate file: %w", err)
